@@ -371,6 +371,7 @@ func tpStructExpect(p *wire.TransportParameters, pers protocol.Perspective) *wir
 	q := *p
 	q.ClientOverride = nil
 	q.MaxIdleTimeout = time.Duration(int64(p.MaxIdleTimeout) / tpMs * tpMs)
+	q.AdvertisedMaxIdleTimeout = q.MaxIdleTimeout // exactly what Marshal put on the wire
 	if q.MaxIdleTimeout != 0 && q.MaxIdleTimeout < 5*time.Second { // 0 = no idle timeout (RFC 9000 18.2)
 		q.MaxIdleTimeout = 5 * time.Second
 	}
@@ -474,6 +475,7 @@ func tpJudge(in []byte, pers protocol.Perspective, ticket bool) tpVerdict {
 				if val > uint64(math.MaxInt64)/uint64(tpMs) {
 					v.wrapIdle = true
 				}
+				e.AdvertisedMaxIdleTimeout = time.Duration(d)
 				if val == 0 {
 					v.zeroIdle = true
 				} else if d < int64(5*time.Second) {
@@ -665,6 +667,7 @@ func (g *tpGen) emitParse(in []byte, pers protocol.Perspective, ticket bool, buc
 			q := *p
 			if v.wrapIdle || (v.zeroIdle && p.MaxIdleTimeout == 5*time.Second) {
 				q.MaxIdleTimeout = v.expect.MaxIdleTimeout
+				q.AdvertisedMaxIdleTimeout = v.expect.AdvertisedMaxIdleTimeout
 			}
 			if v.wrapMin {
 				q.MinAckDelay = v.expect.MinAckDelay
@@ -740,6 +743,11 @@ func (g *tpGen) checkReencode(p *wire.TransportParameters, pers protocol.Perspec
 	// can only produce by int64 wrap-around (reported separately)
 	q2 := *q
 	wrap := false
+	if q.AdvertisedMaxIdleTimeout == time.Duration(int64(p.MaxIdleTimeout)/tpMs*tpMs) && p.AdvertisedMaxIdleTimeout != q.AdvertisedMaxIdleTimeout {
+		// by design: the receive-side field AdvertisedMaxIdleTimeout (< 5 s, or saturated) is not what Marshal sends
+		q2.AdvertisedMaxIdleTimeout, wrap = p.AdvertisedMaxIdleTimeout, true
+		g.dist["reencode:advertised-idle-timeout-not-marshalled"]++
+	}
 	if p.MaxIdleTimeout == 0 && q.MaxIdleTimeout == 5*time.Second {
 		// an absent max_idle_timeout decodes to 0, Marshal then sends an explicit 0, which decodes to
 		// MinRemoteIdleTimeout (RFC 9000 18.2: 0 and absent both mean "no idle timeout")
